@@ -2,6 +2,7 @@ package schema
 
 import (
 	"fmt"
+	"strings"
 
 	cosmos_proto "github.com/cosmos/cosmos-proto"
 	"google.golang.org/protobuf/proto"
@@ -249,6 +250,7 @@ func FixedCorpus() []*Unit {
 	{
 		ua, fa := unit("impa", "imported package")
 		fa.Enum("Color", "COLOR_UNSPECIFIED", 0, "RED", 1, "BLUE", 7)
+		fa.Enum("Level", "LEVEL_ZZZ", 0, "LEVEL_AAA", 0, "LEVEL_M", 5, "LEVEL_B", 5)
 		pa := fa.Msg("Point")
 		pa.F("x", 1, S(Sint64))
 		pa.F("y", 2, S(Sint64))
@@ -269,9 +271,11 @@ func FixedCorpus() []*Unit {
 		m.O(o, "op", 4, M("verif.impa.Point"))
 		m.O(o, "oc", 5, E("verif.impa.Color"))
 		m.O(o, "ometa", 9, M("verif.impa.Point.Meta"))
+		m.O(o, "olvl", 11, E("verif.impa.Level"))
 		m.F("c", 6, E("verif.impa.Color"))
 		m.R("cs", 7, E("verif.impa.Color"))
 		m.Map("cm", 8, Int32, E("verif.impa.Color"))
+		m.F("lvl", 10, E("verif.impa.Level"))
 		out = append(out, ub)
 	}
 
@@ -387,9 +391,12 @@ func FixedCorpus() []*Unit {
 		mt.R("tags", 2, S(String))
 		fz := NewFile("verif/samepkg/z_types.proto", "verif.samepkg", gp)
 		fz.Enum("Shape", "SHAPE_UNSPECIFIED", 0, "SHAPE_ROUND", 1, "SHAPE_FLAT", 4)
+		// aliases of the zero value and of 2 whose names sort BEFORE the name declared first
+		fz.Enum("Mode", "MODE_UNKNOWN", 0, "MODE_DEFAULT", 0, "MODE_B", 2, "MODE_A", 2, "MODE_NEG", -1)
 		zt := fz.Msg("Z")
 		zt.F("s", 1, E("verif.samepkg.Shape"))
 		zt.Map("m", 2, String, S(Int64))
+		zt.F("mode", 3, E("verif.samepkg.Mode"))
 		fa := NewFile("verif/samepkg/a_main.proto", "verif.samepkg", gp, "verif/samepkg/m_types.proto", "verif/samepkg/z_types.proto")
 		am := fa.Msg("Main")
 		am.F("m", 1, M("verif.samepkg.M"))
@@ -401,6 +408,10 @@ func FixedCorpus() []*Unit {
 		o := am.Oneof("pick")
 		am.O(o, "pm", 7, M("verif.samepkg.M"))
 		am.O(o, "ps", 8, E("verif.samepkg.Shape"))
+		am.O(o, "pmode", 9, E("verif.samepkg.Mode"))
+		am.F("mode", 10, E("verif.samepkg.Mode"))
+		am.R("modes", 11, E("verif.samepkg.Mode"))
+		am.Map("mode_by", 12, Bool, E("verif.samepkg.Mode"))
 		out = append(out,
 			&Unit{Name: "samepkg_m", File: fm, Label: []string{"same Go package, file 1 of 3 (imported, messages only)"}},
 			&Unit{Name: "samepkg_z", File: fz, Label: []string{"same Go package, file 2 of 3 (imported, enum + message)"}},
@@ -804,6 +815,11 @@ func FixedCorpus() []*Unit {
 		fd.JsonName = proto.String("map with spaces")
 		fd = us.F("renamed_msg", 6, M(in.Full()))
 		fd.JsonName = proto.String("@type_like")
+		// json names end up inside the struct tag, a raw string literal of the generated source
+		fd = us.F("ticked", 8, S(String))
+		fd.JsonName = proto.String("col`1")
+		fd = us.R("quoted", 9, S(Bytes))
+		fd.JsonName = proto.String("quo\"te\\slash `x` \n")
 		// lower-case names that begin with letters of the package name
 		for i, n := range []string{"version", "event", "item", "field_set", "oddids", "verif"} {
 			lm := f.Msg(n)
@@ -816,6 +832,186 @@ func FixedCorpus() []*Unit {
 		deep := us.Nested("deep_1").Nested("Deep_2").Nested("deep3")
 		deep.F("leaf", 1, S(Fixed32))
 		us.F("d", 7, M(deep.Full()))
+		out = append(out, u)
+	}
+
+	// ---- comments: source info with comments on every kind of element, and
+	// deprecated options, which the generator turns into Go comments
+	{
+		u, f := unit("comments", "leading / trailing / detached comments with odd content on every element", "deprecated file, messages, fields, enums, enum values")
+		child, enum := addChildAndEnum(f)
+		f.P.Options.Deprecated = proto.Bool(true)
+		f.Enum("Mode", "MODE_ZERO", 0, "MODE_OLD", 1, "MODE_NEW", 2)
+		f.P.EnumType[len(f.P.EnumType)-1].Options = &descriptorpb.EnumOptions{Deprecated: proto.Bool(true)}
+		f.P.EnumType[len(f.P.EnumType)-1].Value[1].Options = &descriptorpb.EnumValueOptions{Deprecated: proto.Bool(true)}
+		m := f.Msg("Commented")
+		m.P.Options = &descriptorpb.MessageOptions{Deprecated: proto.Bool(true)}
+		dep := func(fd *descriptorpb.FieldDescriptorProto) {
+			if fd.Options == nil {
+				fd.Options = &descriptorpb.FieldOptions{}
+			}
+			fd.Options.Deprecated = proto.Bool(true)
+		}
+		dep(m.F("a", 1, S(Int32)))
+		m.F("b", 2, S(String))
+		dep(m.R("c", 3, S(Sint64)))
+		dep(m.Map("d", 4, String, child))
+		o := m.Oneof("pick")
+		dep(m.O(o, "p_s", 5, S(String)))
+		m.O(o, "p_m", 6, child)
+		dep(m.F("raw", 7, S(Bytes)))
+		dep(m.F("e", 8, E(f.P.GetPackage()+".Mode")))
+		m.F("f", 9, enum)
+		dep(m.F("child", 10, child))
+		in := m.Nested("Inner")
+		in.F("x", 1, S(Double))
+		in.Enum("Kind", "KIND_ZERO", 0, "KIND_ONE", 1)
+		m.R("inners", 11, M(in.Full()))
+		svc := &descriptorpb.ServiceDescriptorProto{Name: proto.String("Documented"), Method: []*descriptorpb.MethodDescriptorProto{
+			{Name: proto.String("Do"), InputType: proto.String("." + m.Full()), OutputType: proto.String("." + m.Full()), Options: &descriptorpb.MethodOptions{Deprecated: proto.Bool(true)}},
+		}}
+		f.P.Service = append(f.P.Service, svc)
+		texts := []string{
+			" simple\n",
+			" two\n lines\n",
+			" closes a block comment early */ var x = 1 /* and opens one\n",
+			" back`tick`, \"double\" and 'single' quotes, a \\ backslash\n",
+			" verbs %d %s %v %!d(MISSING) %% %[1]d\n",
+			" trailing spaces   \n\n\n blank lines inside\n\n",
+			" ünïcödé ☃ 日本語 \U0001F600\n",
+			"\tindented with a tab\n\t\tand two\n",
+			" Deprecated: this looks like a deprecation notice.\n",
+			" literal \\n and \\x00 and \\u0000 escapes\n",
+			"no leading space\n",
+			" " + strings.Repeat("long ", 1200) + "\n",
+			" ends without newline",
+			" }{ )( ][ braces\n func init() { panic(1) }\n",
+			"",
+		}
+		k := 0
+		next := func() string { k++; return texts[k%len(texts)] }
+		var locs []*descriptorpb.SourceCodeInfo_Location
+		line := int32(1)
+		add := func(path []int32, trailing bool, detached int) {
+			l := &descriptorpb.SourceCodeInfo_Location{Path: path, Span: []int32{line, 0, 10}}
+			line += 3
+			if s := next(); s != "" {
+				l.LeadingComments = proto.String(s)
+			}
+			if trailing {
+				l.TrailingComments = proto.String(next())
+			}
+			for i := 0; i < detached; i++ {
+				l.LeadingDetachedComments = append(l.LeadingDetachedComments, next())
+			}
+			locs = append(locs, l)
+		}
+		add([]int32{12}, true, 3) // syntax
+		add([]int32{2}, true, 2)  // package
+		add([]int32{8}, false, 1) // options
+		var walk func(md *descriptorpb.DescriptorProto, path []int32)
+		enumLocs := func(ed *descriptorpb.EnumDescriptorProto, path []int32) {
+			add(path, true, 1)
+			for j := range ed.Value {
+				add(append(append([]int32{}, path...), 2, int32(j)), j%2 == 0, j%3)
+			}
+		}
+		walk = func(md *descriptorpb.DescriptorProto, path []int32) {
+			add(path, true, 2)
+			for j := range md.Field {
+				add(append(append([]int32{}, path...), 2, int32(j)), j%3 != 2, j%2)
+			}
+			for j := range md.OneofDecl {
+				add(append(append([]int32{}, path...), 8, int32(j)), true, 1)
+			}
+			for j, ed := range md.EnumType {
+				enumLocs(ed, append(append([]int32{}, path...), 4, int32(j)))
+			}
+			for j, nd := range md.NestedType {
+				walk(nd, append(append([]int32{}, path...), 3, int32(j)))
+			}
+		}
+		for i, md := range f.P.MessageType {
+			walk(md, []int32{4, int32(i)})
+		}
+		for i, ed := range f.P.EnumType {
+			enumLocs(ed, []int32{5, int32(i)})
+		}
+		add([]int32{6, 0}, true, 1)
+		add([]int32{6, 0, 2, 0}, true, 1)
+		f.P.SourceCodeInfo = &descriptorpb.SourceCodeInfo{Location: locs}
+		out = append(out, u)
+	}
+
+	// ---- scale: counts beyond what a byte, a word of bits or a two-digit index holds
+	{
+		u, f := unit("scale", "message with 300 fields declared in shuffled number order", "20 interleaved oneofs", "enum with 300 values in descending order", "declarations nested eight deep", "110 messages in one file")
+		child, enum := addChildAndEnum(f)
+		pkg := f.P.GetPackage()
+		bigVals := []interface{}{"BIG_ZERO", 0}
+		for i := 299; i >= 1; i-- {
+			v := i
+			if i%2 == 0 {
+				v = -i
+			}
+			bigVals = append(bigVals, fmt.Sprintf("BIG_%03d", i), v)
+		}
+		f.Enum("Big", bigVals...)
+		big := E(pkg + ".Big")
+		cyc := func() []T {
+			var ts []T
+			for _, k := range ScalarKinds {
+				ts = append(ts, S(k))
+			}
+			return append(ts, enum, child, big)
+		}()
+		w := f.Msg("Wide")
+		for i := 0; i < 300; i++ {
+			num := (i*7919)%300 + 1
+			t := cyc[num%len(cyc)]
+			name := fmt.Sprintf("w%03d", num)
+			switch {
+			case num%5 == 0:
+				w.R(name, num, t)
+			case num%11 == 0 && t.Kind != Message:
+				w.Map(name, num, KeyKinds[num%len(KeyKinds)], t)
+			default:
+				w.F(name, num, t)
+			}
+		}
+		mo := f.Msg("ManyOneofs")
+		var ids []int
+		for i := 0; i < 20; i++ {
+			ids = append(ids, mo.Oneof(fmt.Sprintf("one%02d", i)))
+		}
+		for i := 0; i < 20; i++ { // members are declared together but numbered i+1, i+21, i+41: the oneofs interleave by number
+			for r := 0; r < 3; r++ {
+				j := r*20 + i
+				mo.O(ids[i], fmt.Sprintf("m%02d_%d", i, r), j+1, cyc[j%len(cyc)])
+			}
+		}
+		mo.F("tail", 61, S(String))
+		cur := f.Msg("D1")
+		cur.F("v", 1, S(Int32))
+		chain := []*Msg{cur}
+		for d := 2; d <= 8; d++ {
+			nx := cur.Nested(fmt.Sprintf("D%d", d))
+			nx.F("v", 1, cyc[d])
+			chain = append(chain, nx)
+			cur = nx
+		}
+		cur.Enum("Bottom", "BOTTOM_ZERO", 0, "BOTTOM_ONE", 1)
+		cur.F("e", 2, E(cur.Full()+".Bottom"))
+		for d := 0; d+1 < len(chain); d++ {
+			chain[d].F("down", 2, M(chain[d+1].Full()))
+			chain[d].R("bottoms", 3, M(cur.Full()))
+		}
+		w.F("deep", 301, M(cur.Full()))
+		for i := 0; i < 110; i++ {
+			mm := f.Msg(fmt.Sprintf("M%03d", i))
+			mm.F("next", 1, M(fmt.Sprintf("%s.M%03d", pkg, (i+1)%110)))
+			mm.F("v", 2, cyc[i%len(cyc)])
+		}
 		out = append(out, u)
 	}
 
